@@ -90,9 +90,9 @@ func TestPropHealthyConn(t *testing.T) {
 		e := ep.New()
 		defer e.Close()
 		x := dh.Start(dh.Opts{Route: "c05", Addr: e.Addr, Pickle: pickle, Flush: flush, ConnBuf: connbuf, IoBuf: iobuf})
-		defer x.D.Shutdown()
+		defer x.Stop(20*time.Second, e)
 		if _, ok := x.WaitUp(e, 20*time.Second); !ok {
-			t.Fatalf("HARNESS-ERROR: destination never came up against a healthy endpoint")
+			t.Fatalf("HARNESS-ERROR: destination never came up against a healthy endpoint (iobuf=%d connbuf=%d flush=%v pickle=%v): %s", iobuf, connbuf, flush, pickle, x.LastDiag)
 		}
 		maxLines := 300
 		if iobuf >= 4096 {
